@@ -2,8 +2,10 @@
 Props/C04 — local storage returns every stored object byte-for-byte, at any later time.
 Property theorems only; lemmas are in Proofs/Archive, Proofs/Container (+ C05's Proofs/Lsm*).
 
-Model = the Rust code as written after the two `fix:` commits 6172e03 (remap after every write
-that changed the file size) and b10f99e (no second BLTE decode in `Installation`): Model/Archive,
+Model = the Rust code as written after the `fix:` commits 6172e03 (remap after every write that
+changed the file size), b10f99e (no second BLTE decode in `Installation`), 947b84f
+(`Installation::write_file` saves the index) and 8767d44 (`create_archive` does not truncate an
+existing data file): Model/Archive,
 Model/Container on top of Model/Lsm (C05) and Model/Blte (C01).  Spec = a map from index key to
 the written bytes (Spec/Store).
 
@@ -151,9 +153,12 @@ theorem remapFixed_remapsOnChange (P : Archive.Params) (h : P.remap = Archive.re
 /-! ### the defect that was repaired (DESIGN.md §8): remap only on > 64 MiB / ×2 growth -/
 
 /-- toy parameters for kernel-evaluated witnesses (the theorems hold for every `H`, `hdr`). -/
-def toyP (remap : Nat → Nat → Bool) : Archive.Params :=
+def toyPc (remap : Nat → Nat → Bool) (keep : Bool) : Archive.Params :=
   ⟨fun b => b.reverse.take 16, fun _ _ _ => List.replicate 30 0, remap,
-    ⟨fun _ _ => none, fun _ _ => none⟩⟩
+    ⟨fun _ _ => none, fun _ _ => none⟩, keep⟩
+
+/-- `create_archive` as the code has it now. -/
+def toyP (remap : Nat → Nat → Bool) : Archive.Params := toyPc remap Archive.keepOnCreateNow
 
 /-- Counter-witness for the tree as pinned: write 10 bytes, write 1 byte, read the second object
 → `TruncatedRead`, and its key is marked non-resident; the first object still reads. (The pinned
@@ -189,21 +194,248 @@ example :
 
 /-! ### Installation -/
 
-/-- **installation_read_eq_written** — full statement, FALSE of the tree (finding
-`installation-reopen-loses-index`): "for every history of write_file / read_file_by_encoding_key /
-has_encoding_key / close + reopen, every response is the keyed map's (`ispec`, where reopen changes
-nothing)".  Counter-witness: write 3 bytes, read them, drop + open + initialize, and the key is
-gone — `write_file` never saves the index and `Installation` has no other way to save it. -/
+/-- **installation_read_eq_written** — the full statement, TRUE of the code after `fix:` 947b84f
+(`write_file` saves the index after `add_entry`, as `DynamicContainer::write` does): for every
+history of `write_file` (either `compress`) / `read_file_by_encoding_key` / `has_encoding_key` /
+close + reopen (drop, `Installation::open`, `initialize()`) / a repeated `initialize()`, started on
+an empty directory, every response is the keyed map's (`ispec`: reopen and initialize change
+nothing): a read returns exactly the written bytes for EVERY content — immediately, after later
+writes of any sizes, through the read cache, and after any number of reopens.  Hypotheses: the
+index key of a written object is not the all-zero nine bytes (`inz`, the `.idx` empty slot, C05
+finding `reload-loses-all-zero-key`), no two different contents share their nine leading key bytes
+(`NoColl`), the data file stays below 1 GiB.  (Not covered: `openOnly`, a session that skips
+`initialize()` — see `installation_data_never_lost` and the finding below.) -/
+theorem installation_read_eq_written (P : Archive.Params) (cfg : Lsm.Cfg)
+    (hcap : 1 ≤ cfg.capPages) (hr : RemapsOnChange P) (hh : HdrLen P) (ops : List IOp)
+    (hno : ∀ op ∈ ops, notOpenOnly op) (hnz : ∀ op ∈ ops, inz P op)
+    (hcoll : NoColl P (fun d => ∃ c, IOp.write d c ∈ ops))
+    (hb : ibudget ops < 2 ^ 30) :
+    (irun P cfg IState.init ops).2 = (ispecRun P Store.Map.empty ops).2 := by
+  refine irun_refines_d P cfg hcap hr hh _ hcoll ops IState.init (fun _ => none) (iinvd_init P _) ?_
+    (by simpa [fileOf, IState.init, Archive.State.init] using hb)
+  intro op hop
+  refine ⟨hno op hop, hnz op hop, ?_⟩
+  cases op with
+  | write d c => exact ⟨c, hop⟩
+  | _ => trivial
+
+/-- hypotheses of `installation_read_eq_written` are met by a non-trivial history (BLTE-shaped
+content, both `compress` values, reads through the cache, two reopens, a repeated initialize). -/
+example :
+    let P := toyP Archive.remapFixed
+    let c : Bytes := blteN [5, 6]
+    let ops : List IOp := [.write c true, .read (P.H (blteN c)), .reopen, .read (P.H (blteN c)),
+      .write [1, 2, 3] false, .init, .reopen, .has (P.H (blteN c)), .read (P.H (blteN [1, 2, 3]))]
+    (∀ op ∈ ops, notOpenOnly op) ∧ (∀ op ∈ ops, inz P op) ∧
+      NoColl P (fun d => ∃ x, IOp.write d x ∈ ops) ∧ ibudget ops < 2 ^ 30 ∧
+      (irun P ⟨60, 21⟩ IState.init ops).2 = [.key (P.H c), .bytes c, .ok, .bytes c,
+        .key (P.H [1, 2, 3]), .ok, .ok, .bool true, .bytes [1, 2, 3]] := by
+  refine ⟨?_, ?_, ?_, by decide, by decide +kernel⟩
+  · intro op h
+    simp only [List.mem_cons, List.not_mem_nil, or_false] at h
+    rcases h with rfl | rfl | rfl | rfl | rfl | rfl | rfl | rfl | rfl <;> trivial
+  · intro op h
+    simp only [List.mem_cons, List.not_mem_nil, or_false] at h
+    rcases h with rfl | rfl | rfl | rfl | rfl | rfl | rfl | rfl | rfl <;>
+      first | trivial | (show keyOf _ _ ≠ 0; decide)
+  · intro d1 d2 ⟨c1, h1⟩ ⟨c2, h2⟩ _
+    simp only [List.mem_cons, IOp.write.injEq, List.not_mem_nil, or_false, reduceCtorEq, false_or] at h1 h2
+    rcases h1 with ⟨rfl, _⟩ | ⟨rfl, _⟩ <;> rcases h2 with ⟨rfl, _⟩ | ⟨rfl, _⟩ <;>
+      first | rfl | (rename_i hk; revert hk; decide)
+
+/-- **installation_written_object_read_back** (the property in its own words, for the
+installation). In any such history, once `write_file d` has happened, a later
+`read_file_by_encoding_key` under the object's key returns exactly `d` — immediately, or after
+any further operations `post`: writes of any sizes and contents, reads, queries, any number of
+close + reopen. (No `keeps` hypothesis is needed: the installation has no remove, and `NoColl`
+already says that no other content shares the nine key bytes.) -/
+theorem installation_written_object_read_back (P : Archive.Params) (cfg : Lsm.Cfg)
+    (hcap : 1 ≤ cfg.capPages) (hr : RemapsOnChange P) (hh : HdrLen P) (pre post : List IOp)
+    (d : Bytes) (c : Bool) (key : Bytes) (hkey : key9 key = keyOf P d)
+    (hno : ∀ op ∈ pre ++ [.write d c] ++ post ++ [.read key], notOpenOnly op)
+    (hnz : ∀ op ∈ pre ++ [.write d c] ++ post ++ [.read key], inz P op)
+    (hcoll : NoColl P (fun x => ∃ y, IOp.write x y ∈ pre ++ [.write d c] ++ post ++ [.read key]))
+    (hb : ibudget (pre ++ [.write d c] ++ post ++ [.read key]) < 2 ^ 30) :
+    (irun P cfg IState.init (pre ++ [.write d c] ++ post ++ [.read key])).2.getLast? =
+      some (.bytes d) := by
+  rw [installation_read_eq_written P cfg hcap hr hh _ hno hnz hcoll hb]
+  rw [ispecRun_append]
+  have hm : (ispecRun P Store.Map.empty (pre ++ [.write d c] ++ post)).1 (key9 key) = some d := by
+    rw [hkey, ispecRun_append, ispecRun_append]
+    apply ispec_keeps
+    · simp only [ispecRun, ispec, Store.Map.set, if_true]
+    · intro d' c' hm hk
+      exact hcoll d' d ⟨c', by simp only [List.mem_append]; exact Or.inl (Or.inr hm)⟩
+        ⟨c, by simp⟩ hk
+  simp only [ispecRun, ispec, hm, List.getLast?_append, List.getLast?_singleton, Option.some_or]
+
+/-- the hypotheses of `installation_written_object_read_back` are met by the same non-trivial
+history, cut as `pre ++ [write [1,2,3]] ++ post ++ [read key]` with two reopens in `post`. -/
+example :
+    let P := toyP Archive.remapFixed
+    let c : Bytes := blteN [5, 6]
+    let pre : List IOp := [.write c true, .read (P.H (blteN c)), .reopen, .read (P.H (blteN c))]
+    let post : List IOp := [.init, .reopen, .has (P.H (blteN c))]
+    let ops := pre ++ [IOp.write [1, 2, 3] false] ++ post ++ [.read (P.H (blteN [1, 2, 3]))]
+    key9 (P.H (blteN [1, 2, 3])) = keyOf P [1, 2, 3] ∧
+    (∀ op ∈ ops, notOpenOnly op) ∧ (∀ op ∈ ops, inz P op) ∧
+      NoColl P (fun d => ∃ x, IOp.write d x ∈ ops) ∧ ibudget ops < 2 ^ 30 := by
+  refine ⟨rfl, ?_, ?_, ?_, by decide⟩
+  · intro op h
+    simp only [List.cons_append, List.nil_append, List.mem_cons, List.not_mem_nil, or_false] at h
+    rcases h with rfl | rfl | rfl | rfl | rfl | rfl | rfl | rfl | rfl <;> trivial
+  · intro op h
+    simp only [List.cons_append, List.nil_append, List.mem_cons, List.not_mem_nil, or_false] at h
+    rcases h with rfl | rfl | rfl | rfl | rfl | rfl | rfl | rfl | rfl <;>
+      first | trivial | (show keyOf _ _ ≠ 0; decide)
+  · intro d1 d2 ⟨c1, h1⟩ ⟨c2, h2⟩ _
+    simp only [List.cons_append, List.nil_append, List.mem_cons, IOp.write.injEq, List.not_mem_nil,
+      or_false, reduceCtorEq, false_or] at h1 h2
+    rcases h1 with ⟨rfl, _⟩ | ⟨rfl, _⟩ <;> rcases h2 with ⟨rfl, _⟩ | ⟨rfl, _⟩ <;>
+      first | rfl | (rename_i hk; revert hk; decide)
+
+/-- **installation_reopen_loses_index** — PINNED tree (before `fix:` 947b84f; `irunWith false` is
+the pinned `write_file`, which never saved the index): write 3 bytes, read them, drop + open +
+initialize, and the key is gone, while the keyed map still has it.  The same history on the code
+as it is now (`irun`) answers as the map does. -/
 theorem installation_reopen_loses_index :
     let P := toyP Archive.remapFixed
     let d : Bytes := [1, 2, 3]
     let k := P.H (blteN d)
     let ops : List IOp := [.write d true, .read k, .reopen, .has k, .read k]
-    (irun P ⟨60, 21⟩ IState.init ops).2 = [.key (P.H d), .bytes d, .ok, .bool false, .notFound] ∧
-      (ispecRun P Store.Map.empty ops).2 = [.key (P.H d), .bytes d, .ok, .bool true, .bytes d] := by
+    (irunWith false P ⟨60, 21⟩ IState.init ops).2 =
+        [.key (P.H d), .bytes d, .ok, .bool false, .notFound] ∧
+      (ispecRun P Store.Map.empty ops).2 = [.key (P.H d), .bytes d, .ok, .bool true, .bytes d] ∧
+      (irun P ⟨60, 21⟩ IState.init ops).2 = (ispecRun P Store.Map.empty ops).2 := by
   decide +kernel
 
-/-- **installation_read_eq_written_partial.** Without reopen the statement holds: for every
+/-- **open_then_initialize_is_reopen.** The two-step form of a reopen — drop +
+`Installation::open` (`openOnly`), then `initialize()` — reaches exactly the state of the one-step
+`reopen` of the theorems above, from every state. -/
+theorem open_then_initialize_is_reopen (P : Archive.Params) (cfg : Lsm.Cfg) (s : IState) :
+    (istep P cfg (istep P cfg s .openOnly).1 .init).1 = (istep P cfg s .reopen).1 :=
+  open_then_initialize_eq_reopen P cfg s
+
+/-- **installation_data_never_lost** (after `fix:` 8767d44). For EVERY history — including
+sessions opened WITHOUT `initialize()` (`openOnly`) that go on to write, in any mix with reads,
+queries, reopens and initializes — and up to 4 GiB of data: the entry a `write_file d` appended is
+still stored, byte for byte, at the location that write returned (offset = length of the file at
+that moment, size 30 + 9 + |d|) after everything that follows, and once the archive is opened
+(`initialize()`) `read_content` of that location returns exactly `d`.  No later write of any
+session shortens or overwrites the data file. -/
+theorem installation_data_never_lost (P : Archive.Params) (cfg : Lsm.Cfg)
+    (hk : P.keepOnCreate = true) (hr : RemapsOnChange P) (hh : HdrLen P)
+    (pre post : List IOp) (d : Bytes) (c : Bool)
+    (hb : ibudget (pre ++ [.write d c] ++ post) < 2 ^ 32) :
+    let off := (fileOf (irun P cfg IState.init pre).1.ar).length
+    let s := (irun P cfg IState.init (pre ++ [.write d c] ++ post)).1
+    Stored P.cd (fileOf s.ar) off (Archive.headerSize + 9 + d.length) d ∧
+      Archive.readContent P (Archive.reopen s.ar) 0 off (Archive.headerSize + 9 + d.length) = .ok d := by
+  intro off s
+  rw [ibudget_append, ibudget_append] at hb
+  simp only [ibudget, icost] at hb
+  have h0 : ArchOk' IState.init.ar := Or.inl rfl
+  have hf0 : (fileOf IState.init.ar).length = 0 := rfl
+  obtain ⟨a1, _, a3⟩ := irun_keeps_stored P cfg hk hr hh pre IState.init h0 (by rw [hf0]; omega)
+  rw [hf0] at a3
+  obtain ⟨b1, _, b3, b4⟩ := istep_keeps_stored P cfg hk hr hh (irun P cfg IState.init pre).1 a1
+    (.write d c) (by rw [a3]; simp only [icost]; omega)
+  obtain ⟨_, c2, _⟩ := irun_keeps_stored P cfg hk hr hh post
+    (istep P cfg (irun P cfg IState.init pre).1 (.write d c)).1 b1
+    (by rw [b3, a3]; simp only [icost]; omega)
+  have hs : s = (irun P cfg (istep P cfg (irun P cfg IState.init pre).1 (.write d c)).1 post).1 := by
+    show (irun P cfg IState.init (pre ++ [.write d c] ++ post)).1 = _
+    rw [irun_append, irun_append]
+    rfl
+  have hst : Stored P.cd (fileOf s.ar) off (Archive.headerSize + 9 + d.length) d := by
+    rw [hs]; exact c2 _ _ _ (b4 d c rfl)
+  refine ⟨hst, ?_⟩
+  have hst' : Stored P.cd (fileOf (Archive.reopen s.ar)) off (Archive.headerSize + 9 + d.length) d := hst
+  exact read_live' (P := P) (reopen_ok s.ar)
+    (⟨0, 0, off, Archive.headerSize + 9 + d.length⟩ : Cascette.Spec.IndexMap.Entry) d rfl hst'
+
+/-- `installation_data_never_lost` applies to a non-trivial history with an un-initialized
+session in the middle; there the read of the first object after the final reopen returns it. -/
+example :
+    let P := toyP Archive.remapFixed
+    let a : Bytes := [1, 2, 3]
+    let b : Bytes := [4, 5, 7]
+    P.keepOnCreate = true ∧ RemapsOnChange P ∧ HdrLen P ∧
+      ibudget ([] ++ [IOp.write a true] ++ [.openOnly, .write b true, .reopen]) < 2 ^ 32 ∧
+      (irun P ⟨60, 21⟩ IState.init [.write a true, .openOnly, .read (P.H (blteN a)), .write b true,
+        .reopen, .read (P.H (blteN a)), .read (P.H (blteN b))]).2 =
+        [.key (P.H a), .ok, .notFound, .key (P.H b), .ok, .bytes a, .bytes b] := by
+  refine ⟨rfl, remapFixed_ok _ rfl, fun _ _ _ => rfl, by decide, by decide +kernel⟩
+
+/-- **uninitialized_write_truncated_pinned** — PINNED tree (before `fix:` 8767d44;
+`keepOnCreate = false` is the pinned `create_archive` = `File::create`): write `a`, drop +
+`Installation::open` WITHOUT `initialize()`, write `b` of the same size — `data.000` is truncated
+and `b` lands at offset 0 — then after a proper reopen the key of `a` reads back as the bytes of
+`b`: a successful read of other bytes.  (Evaluated with the index persisted, i.e. on top of
+947b84f; on the pinned `write_file` the key of `a` is simply gone.) -/
+theorem uninitialized_write_truncated_pinned :
+    let P := toyPc Archive.remapFixed false
+    let a : Bytes := [1, 2, 3]
+    let b : Bytes := [4, 5, 7]
+    (irun P ⟨60, 21⟩ IState.init [.write a true, .openOnly, .write b true, .reopen,
+        .read (P.H (blteN a)), .read (P.H (blteN b))]).2 =
+      [.key (P.H a), .ok, .key (P.H b), .ok, .bytes b, .bytes b] := by decide +kernel
+
+/-- the same at the archive level, for every file and payload: the pinned `create_archive`
+leaves a data file that holds ONLY the new entry, at offset 0. -/
+theorem archive_write_without_open_truncated_pinned (P : Archive.Params)
+    (hk : P.keepOnCreate = false) (file d : Bytes) (m : Cascette.Model.Blte.Mode) (b : Bytes)
+    (hb : Archive.blteOf P.cd d m = .ok b) (hsz : Archive.headerSize + b.length < 2 ^ 32) :
+    ∃ s', Archive.write P ⟨some file, none⟩ d m = (s', .ok (0, 0, Archive.headerSize + b.length, P.H b)) ∧
+      s'.disk = some (P.hdr (P.H b) b.length 0 ++ b) :=
+  write_truncates_pinned P hk file d m b hb hsz
+
+/-- **archive_write_without_open_appends** (the code now). A write through an `ArchiveManager`
+that has NOT run `open_all` (nothing open, `data.000` holding any bytes) appends
+`header ‖ image` at the end of the existing file, returns its old length as offset, and leaves
+the archive open on the whole file — for every file, payload and storable mode, up to 4 GiB. -/
+theorem archive_write_without_open_appends (P : Archive.Params) (hk : P.keepOnCreate = true)
+    (hr : RemapsOnChange P) (hh : HdrLen P) (file d : Bytes) (m : Cascette.Model.Blte.Mode) (b : Bytes)
+    (hb : Archive.blteOf P.cd d m = .ok b)
+    (hsz : file.length + Archive.headerSize + b.length < 2 ^ 32) :
+    ∃ s', Archive.write P (Archive.dropOpen ⟨some file, none⟩) d m =
+        (s', .ok (0, file.length, Archive.headerSize + b.length, P.H b)) ∧
+      s'.disk = some (file ++ (P.hdr (P.H b) b.length file.length ++ b)) ∧ ArchOk s' :=
+  write_append P hk hr hh _ (dropOpen_ok' _) d m b hb hsz
+
+/-- the hypotheses of the two archive-level theorems are satisfiable (a 3-byte payload on a
+40-byte file, mode `N`). -/
+example :
+    let d : Bytes := [1, 2, 3]
+    let file : Bytes := List.replicate 40 9
+    (toyPc Archive.remapFixed false).keepOnCreate = false ∧ (toyP Archive.remapFixed).keepOnCreate = true ∧
+      RemapsOnChange (toyP Archive.remapFixed) ∧ HdrLen (toyP Archive.remapFixed) ∧
+      Archive.blteOf (toyP Archive.remapFixed).cd d .none = .ok (blteN d) ∧
+      file.length + Archive.headerSize + (blteN d).length < 2 ^ 32 :=
+  ⟨rfl, rfl, remapFixed_ok _ rfl, fun _ _ _ => rfl, blteOf_none _ _, by decide⟩
+
+/-- **uninitialized_write_replaces_bucket** — finding
+`installation-uninitialized-write-replaces-bucket`, the code as it is now: write `a`, drop +
+`Installation::open` WITHOUT `initialize()`, write `b` whose key falls into the same index bucket
+(here bucket 11 for both): the un-initialized instance holds an empty index, `write_file` saves a
+bucket file with `b` alone over the file that held `a`, and after `initialize()` / a proper reopen
+the key of `a` is not found — although its bytes are still in `data.000`
+(`installation_data_never_lost`).  The keyed map answers `bytes a`. -/
+theorem uninitialized_write_replaces_bucket :
+    let P := toyP Archive.remapFixed
+    let a : Bytes := [1, 2, 3]
+    let b : Bytes := [3, 2, 1]
+    let ops : List IOp := [.write a true, .openOnly, .write b true, .init, .read (P.H (blteN a)),
+      .reopen, .has (P.H (blteN a)), .read (P.H (blteN b))]
+    Cascette.Spec.IndexMap.bucketOf (keyOf P a) = Cascette.Spec.IndexMap.bucketOf (keyOf P b) ∧
+      (irun P ⟨60, 21⟩ IState.init ops).2 =
+        [.key (P.H a), .ok, .key (P.H b), .ok, .notFound, .ok, .bool false, .bytes b] ∧
+      (ispecRun P Store.Map.empty ops).2 =
+        [.key (P.H a), .ok, .key (P.H b), .ok, .bytes a, .ok, .bool true, .bytes b] := by
+  decide +kernel
+
+/-- **installation_read_eq_written_partial** (kept from before `fix:` 947b84f; it needs neither
+the non-zero-key hypothesis nor anything about persistence). Without reopen the statement holds: for every
 history of `write_file` (either value of `compress`) / `read_file_by_encoding_key` /
 `has_encoding_key` in which no two different contents share the nine leading key bytes (the
 installation caches by full key, so a colliding rewrite would be served stale), every response is
@@ -257,5 +489,84 @@ theorem installation_blte_shaped_fixed_witness :
     (irun P ⟨60, 21⟩ IState.init [.write c false, .read (P.H (blteN c)), .read (P.H (blteN c))]).2 =
       [.key (P.H c), .bytes c, .bytes c] := by
   decide +kernel
+
+/-! ### size and offset limits (what happens at 2^30, 2^32, 256 GiB) -/
+
+/-- **write_limits_are_placeAt.** On an open archive, for every file content, payload and mode:
+the result of `write_content_with_mode` is the arithmetic `placeAt pos |image|` — an error class,
+or the write position as offset with `30 + |image|` as size — and the entry is written and the
+position advanced exactly when `placeAtWrites` holds (also when the late `u32::try_from(offset)`
+then fails: the bytes are in the file, the caller gets an error).  `placeAt` checks 2^32 (sizes and
+offset) and 256 GiB (− 100 MiB); nothing else. -/
+theorem write_limits_are_placeAt (P : Archive.Params) (s : Archive.State) (o : Archive.Open)
+    (file : Bytes) (ho : s.opn = some o) (hf : s.disk = some file) (d : Bytes)
+    (m : Cascette.Model.Blte.Mode) (b : Bytes) (hb : Archive.blteOf P.cd d m = .ok b) :
+    (Archive.write P s d m).2 = (Archive.placeAt o.pos b.length).map (fun r => (0, r.1, r.2, P.H b)) ∧
+      (Archive.write P s d m).1.opn.map (·.pos) =
+        some (if Archive.placeAtWrites o.pos b.length then o.pos + (Archive.headerSize + b.length)
+          else o.pos) :=
+  ⟨write_result_eq_placeAt P s o file ho hf d m b hb, write_advances_iff P s o file ho hf d m b hb⟩
+
+/-- **no_limit_at_1GiB.** For every write position from 2^30 up to 2^32 and every image below
+2 GiB the write is accepted at that position: no error, no roll-over to `data.001`, no wrap — the
+returned offset does not fit the 30-bit offset field of an `.idx` record. -/
+theorem no_limit_at_1GiB (pos blteLen : Nat) (h1 : 2 ^ 30 ≤ pos) (h2 : pos < 2 ^ 32)
+    (h3 : blteLen < 2 ^ 31) :
+    Archive.placeAt pos blteLen = .ok (pos, Archive.headerSize + blteLen) ∧ ¬ pos < 2 ^ 30 :=
+  placeAt_no_limit_at_1GiB pos blteLen h1 h2 h3
+
+/-- the hypotheses of `no_limit_at_1GiB` are satisfiable, and the other limits of `placeAt` are
+where the code has them (test by evaluation): offset 2^32 → error after writing; position at
+256 GiB − 100 MiB → archive 0 is no longer selected. -/
+example :
+    Archive.placeAt (2 ^ 30) 100 = .ok (2 ^ 30, 130) ∧
+      Archive.placeAt (2 ^ 32 - 1) 100 = .ok (2 ^ 32 - 1, 130) ∧
+      Archive.placeAt (2 ^ 32) 100 = .error .tooLarge ∧ Archive.placeAtWrites (2 ^ 32) 100 = true ∧
+      Archive.placeAt (Archive.maxArchive - Archive.writeReserve) 100 = .error .rollover ∧
+      Archive.placeAtWrites (Archive.maxArchive - Archive.writeReserve) 100 = false :=
+  ⟨by rfl, by rfl, by rfl, by decide, by rfl, by decide⟩
+
+/-- **idx_offset_cut_to_30_bits.** What `write_archive_location` + `parse_archive_location` keep
+of ANY archive id and offset: the low 10 bits of the id and the low 30 bits of the offset. -/
+theorem idx_offset_cut_to_30_bits (id off : Nat) :
+    Lsm.unpackLoc (Lsm.packLoc id off) = some (id % 1024, off % 2 ^ 30) :=
+  unpack_pack_any id off
+
+/-- **offset_past_1GiB_wraps_after_reopen** — finding `dyn-offset-beyond-1GiB-wraps-after-reopen`.
+A `DynamicContainer` opened on a directory whose `data.000` is ANY `file` (and no index file):
+`write d` succeeds for every file length up to 4 GiB, the entry is appended at offset
+`file.length` — and after close + reopen the index answers the object's key with offset
+`file.length % 2^30`.  So for `file.length ≥ 2^30` the reopened container looks for the object
+`2^30·⌊file.length / 2^30⌋` bytes before the place where it is stored. -/
+theorem offset_past_1GiB_wraps_after_reopen (P : Archive.Params) (cfg : Lsm.Cfg)
+    (hcap : 1 ≤ cfg.capPages) (hr : RemapsOnChange P) (hh : HdrLen P) (file d : Bytes)
+    (hsz : file.length + (Archive.headerSize + 9 + d.length) < 2 ^ 32) :
+    (run P cfg (onFile file) [.write d, .reopen]).2 = [.ok, .ok] ∧
+      Lsm.lookup (run P cfg (onFile file) [.write d, .reopen]).1.ix (keyOf P d) =
+        some ⟨keyOf P d, 0, file.length % 2 ^ 30, Archive.headerSize + 9 + d.length⟩ ∧
+      fileOf (run P cfg (onFile file) [.write d, .reopen]).1.ar =
+        file ++ (P.hdr (P.H (blteN d)) (blteN d).length file.length ++ blteN d) :=
+  dyn_write_reopen_lookup P cfg hcap hr hh file d hsz
+
+/-- the hypotheses of `offset_past_1GiB_wraps_after_reopen` hold for a data file of 2^30 + 5
+bytes (never evaluated: only its length is used), where the conclusion says offset 5; and those
+of `write_limits_are_placeAt` for the archive open on it. -/
+example :
+    let P := toyP Archive.remapFixed
+    let file : Bytes := List.replicate (2 ^ 30 + 5) 0
+    let d : Bytes := [1, 2, 3]
+    RemapsOnChange P ∧ HdrLen P ∧ file.length + (Archive.headerSize + 9 + d.length) < 2 ^ 32 ∧
+      file.length % 2 ^ 30 = 5 ∧
+      (onFile file).ar.opn = some ⟨file.length, file.length⟩ ∧ (onFile file).ar.disk = some file ∧
+      Archive.blteOf P.cd d .none = .ok (blteN d) := by
+  refine ⟨remapFixed_ok _ rfl, fun _ _ _ => rfl, ?_, ?_, rfl, rfl, blteOf_none _ _⟩
+  · simp only [List.length_replicate]; decide
+  · simp only [List.length_replicate]
+
+/-- the index half alone, evaluated by the kernel: add an entry at offset 2^30 + 5, `save_all`,
+restart, look it up → offset 5. -/
+theorem idx_offset_wrap_witness :
+    Lsm.lookup (Lsm.reload (Lsm.saveAll (Lsm.step ⟨60, 21⟩ Lsm.State.init (.add 77 0 (2 ^ 30 + 5) 39)).1)) 77 =
+      some ⟨77, 0, 5, 39⟩ := by decide +kernel
 
 end Cascette.Props.C04
